@@ -215,3 +215,23 @@ def _conditions(ctx):
     ok = len(ez) == 1 and any(isinstance(s, ast.Assign) and norm(s.targets[0]) == "b" and "ir.Const(0," in norm(s.value) and "ir_typ" in norm(s.value) for s in ez[0].body) and \
         any(isinstance(s, ast.Assign) and norm(s.targets[0]) == "a" and "pop_value" in norm(s.value) for s in ez[0].body)
     ctx.ob("C22.R6", W + ":WasmToIrCompiler.gen_cmpop", "eqz compares the popped operand (left) with a zero constant of the operand's own type (right)", ok, construct="eqz-zero")
+    shortcut = [x for b in (ez[0].body if ez else []) for x in ast.walk(b) if isinstance(x, (ast.Return, ast.If))]
+    ctx.ob("C22.R6", W + ":WasmToIrCompiler.gen_cmpop", "eqz always materialises `operand == 0`: no path of the eqz branch rewrites a pending comparison instead (not(a < b) is a >= b only without NaN)", bool(ez) and not shortcut,
+           construct="eqz-no-shortcut", node=shortcut[0] if shortcut else None)
+    # a table that maps every comparison to its complement is only sound for integers
+    NEG = {"==": "!=", "!=": "==", "<": ">=", ">=": "<", ">": "<=", "<=": ">"}
+    ctl = ast.parse("T = {'==': '!=', '<': '>=', '>': '<='}")
+    def neg_tables(tree):
+        out = []
+        for d in ast.walk(tree):
+            if isinstance(d, ast.Dict) and len(d.keys) >= 2:
+                kv = [(try_const(k), try_const(v)) for k, v in zip(d.keys, d.values) if k is not None]
+                if kv and all(k in NEG and NEG[k] == v for k, v in kv):
+                    out.append(d)
+        return out
+    ctx.need(len(neg_tables(ctl)) == 1, "C22.R6 positive control lost")
+    hits = []
+    for rel in ("ppci/wasm/wasm2ppci.py", "ppci/wasm/ppci2wasm.py"):
+        hits += [(rel, d) for d in neg_tables(ctx.project.module(rel).tree)]
+    ctx.ob("C22.R6", "ppci/wasm/*", "no table of complemented comparisons is used to fold a negation into a comparison (float comparisons with NaN are not complementary)", not hits, construct="no-complement-table",
+           node=hits[0][1] if hits else None, detail="; ".join("%s:%d" % (r, d.lineno) for r, d in hits))
